@@ -4,6 +4,8 @@ import (
 	"encoding/json"
 	"fmt"
 	"math/rand"
+
+	"github.com/rkosegi/yaml-toolkit/props"
 )
 
 // C11 — (live) ONE resolver over a lookup source that CHANGES between Resolve calls.
@@ -24,10 +26,30 @@ type c11LStep struct {
 
 // c11Live: one resolver is built over the table Tbl (a Go map handed to props.MapLookup) and then used over the steps,
 // the map being edited in place between the uses.
+//
+// Lk names the lookup the resolver is built over: "" is props.MapLookup(table); "ptr" is a lookup that keeps one string
+// per key and hands out a POINTER TO THE STRING IT KEEPS (props.LookupFn returns *string: a lookup over struct fields,
+// over a cache, over a map[string]*string does exactly that).  The table of the case is what the lookup answers with:
+// Resolve reads through those pointers, every use is still held against the table as the case's steps made it — and
+// the strings the lookup keeps must be, after every use, the strings the steps put there.
 type c11Live struct {
 	D     [3]string   `json:"d"`
 	Tbl   [][2]string `json:"tbl"`
 	Steps []c11LStep  `json:"steps"`
+	Lk    string      `json:"lk,omitempty"`
+}
+
+// c11NewResolverLk: a resolver over the given lookup (all three delimiters set), with the lookup budget of the others.
+func c11NewResolverLk(d [3]string, ml props.LookupFn) *c11Resolver {
+	n := new(int)
+	r := props.Builder().Prefix(d[0]).Suffix(d[1]).ValueSeparator(d[2]).LookupFunc(func(k string) *string {
+		*n++
+		if *n > c11LookupBudget || (c11BudgetHits >= 10 && *n > 400) {
+			panic(c11BudgetHit{})
+		}
+		return ml(k)
+	}).MustBuild()
+	return &c11Resolver{r: r, n: n}
 }
 
 // c11GenLive: a small pool of inputs is resolved again and again while keys of a small pool — ordinary names, names that
@@ -84,6 +106,13 @@ func c11RunLive(c *Ctx) {
 		c.Tick()
 		c.Do("live", c11GenLive(c.Rng, c11Triples[i%len(c11Triples)]))
 	}
+	// the same histories over a lookup that hands out pointers to the strings it keeps
+	for i := 0; i < c.N(600); i++ {
+		c.Tick()
+		l := c11GenLive(c.Rng, c11Triples[i%len(c11Triples)])
+		l.Lk = "ptr"
+		c.Do("live", l)
+	}
 }
 
 func c11SortedTbl(m map[string]string) [][2]string {
@@ -107,26 +136,59 @@ func c11EvalLive(c *Ctx, l c11Live) {
 		fresh c11Out
 		snap  map[string]string
 		edits int
+		kept  map[string]string // Lk "ptr": the strings the lookup keeps after this use, where they differ from the table
 	}
 	var uses []use
 	live := c11TblMap(l.Tbl)
+	if l.Lk != "" && l.Lk != "ptr" {
+		c.Dist("live:lookup-outside-domain(skipped)")
+		return
+	}
+	c.Dist("live:lookup=" + map[string]string{"": "MapLookup", "ptr": "pointer-to-kept-string"}[l.Lk])
 	if !c11Timed(func() {
-		cr := c11NewResolver(l.D, live) // props.MapLookup(live): reads the live map on every lookup
+		var cr *c11Resolver
+		var store map[string]*string
+		if l.Lk == "ptr" {
+			store = map[string]*string{}
+			for k, v := range live {
+				v := v
+				store[k] = &v
+			}
+			cr = c11NewResolverLk(l.D, func(k string) *string { return store[k] }) // nil for a key it does not keep
+		} else {
+			cr = c11NewResolver(l.D, live) // props.MapLookup(live): reads the live map on every lookup
+		}
 		edits := 0
 		for _, st := range l.Steps {
 			switch st.Op {
 			case "put":
 				live[st.K] = st.V
+				if store != nil {
+					v := st.V
+					store[st.K] = &v
+				}
 				edits++
 			case "del":
 				delete(live, st.K)
+				if store != nil {
+					delete(store, st.K)
+				}
 				edits++
 			case "use":
 				snap := make(map[string]string, len(live))
 				for k, v := range live {
 					snap[k] = v
 				}
-				uses = append(uses, use{in: st.In, out: cr.resolve(st.In), fresh: c11NewResolver(l.D, snap).resolve(st.In), snap: snap, edits: edits})
+				u := use{in: st.In, out: cr.resolve(st.In), fresh: c11NewResolver(l.D, snap).resolve(st.In), snap: snap, edits: edits}
+				for k, pv := range store {
+					if *pv != live[k] {
+						if u.kept == nil {
+							u.kept = map[string]string{}
+						}
+						u.kept[k] = *pv
+					}
+				}
+				uses = append(uses, u)
 			}
 		}
 	}) {
@@ -146,6 +208,11 @@ func c11EvalLive(c *Ctx, l c11Live) {
 		}
 		ref := c11RefResolve(l.D, u.snap, u.in, c11RefBudget)
 		det := map[string]any{"use": i, "in": u.in, "table-at-this-use": c11SortedTbl(u.snap), "impl": u.out, "reference": ref, "fresh-resolver": u.fresh}
+		if l.Lk == "ptr" {
+			det["lookup"] = "hands out pointers to the strings it keeps"
+			det["strings-the-lookup-keeps-that-differ-from-the-table-after-this-use"] = u.kept
+			c.Direct("resolving-reads-the-lookup's-values-and-leaves-them-as-they-are", len(u.kept) == 0, det)
+		}
 		c.DirectF("terminates(step-budget)", u.out.R != "budget", det, c11DivergeFinding(l.D, u.snap))
 		c.Direct("no-panic-other-than-circular-reference", u.out.R != "panic", det)
 		if u.out.R == "budget" || u.out.R == "panic" {
